@@ -98,8 +98,8 @@ def run_check(prop: str, tier: str, verif_seed: int, runs: int | None, shrink_en
                 extra.setdefault("known", {})[k] = extra.setdefault("known", {}).get(k, 0) + v
             extra["harness_errors"] = extra.get("harness_errors", 0) + fid.pop("harness_errors")
             extra["x_fidelity_real_lifetimes"] = fid
-        if prop == "C09":
-            ro = readme_phase(pools, prop, verif_seed, 8 if tier == "quick" else 60)
+        if prop in ("C09", "C10", "C11", "C12"):
+            ro = readme_phase(pools, prop, verif_seed, {"C09": 8, "C10": 5, "C11": 6, "C12": 4}[prop] * (1 if tier == "quick" else 8))
             extra.setdefault("violations", []).extend(ro.pop("violations"))
             for kid, cnt in ro.pop("known").items():
                 extra.setdefault("known", {})[kid] = extra.setdefault("known", {}).get(kid, 0) + cnt
@@ -194,7 +194,8 @@ def readme_phase(pools, prop, verif_seed, k):
     from .check import load_known, split_known
 
     known = load_known()
-    futs = [(0, pools.submit_custom(1, "mdpsim.cases.run_readme_order", prop, 0, _cases.KF2_PROBE_PLAN))]
+    probe = dict(_cases.KF2_PROBE_PLAN, prop=prop)
+    futs = [(0, pools.submit_custom(1, "mdpsim.cases.run_readme_order", prop, 0, probe))]
     for i in range(k):
         s = P.run_seed(prop + "-readme", verif_seed, i)
         futs.append((s, pools.submit_custom(1, "mdpsim.cases.run_readme_order", prop, s)))
@@ -213,6 +214,7 @@ def readme_phase(pools, prop, verif_seed, k):
             print(f"HARNESS-ERROR readme-order seed={s}: {str(r.get('error'))[:1200]}")
             continue
         out["real_lifetimes"] += r.get("lifetimes", 0)
+        out["real_sigkills"] = out.get("real_sigkills", 0) + r.get("real_kills", 0)
         out["value_dtypes"][str(r.get("dtype"))] = out["value_dtypes"].get(str(r.get("dtype")), 0) + 1
         if r["verdict"] == "violation":
             real, kn = split_known(prop, r["violations"], known)
